@@ -439,6 +439,41 @@ def run_circuits(shard, rec, NB, TB):
             circ.backward(o2)
             return o0, o1, o2, circ.forward_map
         both(rec, "c.circuit.staged", desc, lambda: staged(NB), lambda: staged(TB), NB, TB)
+
+        # a generator gate already taken and compiled is given a new generator through the public setter and recompiled;
+        # and the circuit is compiled for an explicitly larger register
+        G1, G2 = gen.rand_nonid(rng, N), gen.rand_nonid(rng, N)
+
+        def retarget(B_):
+            circ = B_.circuit.identity_circuit(N)
+            g = B_.circuit.CliffordGate(*range(N))
+            g.set_generator(B_.Pauli(G1.copy(), 0))
+            circ.take(g)
+            for s_ in prog[:3]:
+                circ.take(PR.make_gate(B_, s_, N))
+            circ.compile(N)
+            g.set_generator(B_.Pauli(G2.copy(), 2))
+            circ.compile(N)
+            o1 = B_.PauliList(gs.copy(), ps.copy())
+            circ.forward(o1)
+            o2 = B_.PauliList(gs.copy(), ps.copy())
+            circ.backward(o2)
+            return o1, o2, g.forward_map, g.backward_map
+        both(rec, "c.circuit.retarget", dict(desc, G1=O.g2s(G1), G2=O.g2s(G2)), lambda: retarget(NB), lambda: retarget(TB), NB, TB)
+        W = N + 1 + it % 2
+        wg, wp = gen.rand_list(rng, 4, W), rng.integers(0, 4, 4)
+
+        def wider(B_):
+            circ = B_.circuit.identity_circuit(N)
+            for s_ in prog[:5]:
+                circ.take(PR.make_gate(B_, s_, N))
+            o0 = B_.PauliList(wg.copy(), wp.copy())
+            circ.forward(o0)
+            circ.compile(W)
+            o1 = B_.PauliList(wg.copy(), wp.copy())
+            circ.forward(o1)
+            return o0, o1, circ.forward_map
+        both(rec, "c.circuit.wider", dict(desc, W=W), lambda: wider(NB), lambda: wider(TB), NB, TB)
         # diagonalize: same circuits (gate qubits and generators) and same action
         g = gen.rand_nonid(rng, N)
         p = int(rng.integers(4))
